@@ -37,6 +37,8 @@ SYNC = ["value", "callresult", "none", "unserializable", "oversized", "app_error
 LATER = ["later:value", "later:callresult", "later:unserializable", "later:oversized", "later:app_error",
          "later:unmapped"]
 BEHAVIOURS = SYNC + LATER
+CODEC_BEHS = ("value", "callresult", "none", "unserializable", "app_error", "mapped", "unmapped",
+              "progress_sync", "later:value", "later:callresult", "later:app_error")
 TRANSPORTS = [("rs", "json"), ("rs", "cbor"), ("ws", "json"), ("ws", "msgpack")]
 TRANSPORTS_T = [(k, s) for k in ("rs", "ws") for s in ("json", "msgpack", "cbor", "ubjson")]
 
@@ -130,6 +132,7 @@ def main(ctx):
             ctx.require("unknown_registration|%s|%s" % (tk, fw))
             ctx.require("two_concurrent|%s|%s" % (tk, fw))
             ctx.require("still_pending_checked|%s|%s" % (tk, fw))
+            ctx.require("payload_codec_cases|%s|%s" % (tk, fw))
             if tk != "l1":
                 ctx.require("burst_reads|%s|%s" % (tk, fw))
 
@@ -392,6 +395,56 @@ class Link2:
         return self.rt.wire_errors
 
 
+class JsonEnvelopeCodec:
+    """a minimal payload codec (autobahn.wamp.interfaces.IPayloadCodec): [uri, args, kwargs] as JSON in
+    an envelope marked like WAMP-cryptobox.  Confidentiality is C20's subject; here the codec only
+    switches the session's *encoded-payload* reply paths on."""
+
+    def encode(self, is_originating, uri, args=None, kwargs=None):
+        import json
+        from autobahn.wamp.types import EncodedPayload
+        return EncodedPayload(json.dumps([uri, args, kwargs]).encode("utf8"), "cryptobox", "json")
+
+    def decode(self, is_originating, uri, encoded_payload):
+        import json
+        u, a, k = json.loads(bytes(encoded_payload.payload).decode("utf8"))
+        return u, a, k
+
+
+def _decode_replies(log, notes):
+    """replies to encoded invocations carry an encoded payload: open the envelopes (what the caller's
+    codec would do) so that the same reference judges them; a reply in clear is noted"""
+    import json
+    for _, m in log:
+        if m[0] == 70:
+            opts = m[2] or {}
+            if opts.get("enc_algo"):
+                u, a, k = json.loads(bytes(m[3]).decode("utf8"))
+                m[2] = {x: v for x, v in opts.items() if x == "progress"}
+                del m[3:]
+                m.append(a)
+                if k:
+                    m.append(k)
+                elif not a:
+                    del m[3:]
+            else:
+                notes.append(("clear-yield", m[1]))
+        elif m[0] == 8 and m[1] == 68:
+            opts = m[3] or {}
+            if opts.get("enc_algo"):
+                u, a, k = json.loads(bytes(m[5]).decode("utf8"))
+                if u != m[4]:
+                    notes.append(("uri-mismatch", m[2]))
+                m[3] = {}
+                del m[5:]
+                if a or k:
+                    m.append(a or [])
+                if k:
+                    m.append(k)
+            else:
+                notes.append(("clear-error", m[2], m[4]))
+
+
 def run_case(case):
     """-> observation dict"""
     import txaio
@@ -472,6 +525,8 @@ def run_case(case):
 
     def on_join(session, details):
         session.define(mapped_error_class())
+        if case.get("codec"):
+            session.set_payload_codec(JsonEnvelopeCodec())
         for i in range(len(invs)):
             session.register(make_ep(i), "com.proc.%d" % i,
                              options=RegisterOptions(details_arg="details") if det else None,
@@ -497,6 +552,15 @@ def run_case(case):
 
     def inv_msg(i, request=None, registration=None):
         a = invs[i].get("args", "full")
+        if case.get("codec"):
+            enc = JsonEnvelopeCodec().encode(True, "com.proc.%d" % i,
+                                             list(ARGS) if a == "full" else None,
+                                             dict(KWARGS) if a == "full" else None)
+            return M.Invocation(request or 1001 + i, registration or 500 + i, payload=enc.payload,
+                                enc_algo=enc.enc_algo, enc_serializer=enc.enc_serializer,
+                                receive_progress=True if invs[i]["rp"] else (
+                                    False if case.get("rp_false") else None),
+                                caller=777 if a == "full" else None)
         return M.Invocation(request or 1001 + i, registration or 500 + i,
                             args=list(ARGS) if a == "full" else None,
                             kwargs=dict(KWARGS) if a == "full" else None,
@@ -559,7 +623,11 @@ def run_case(case):
     link.settle()
     for m in link.read():
         log.append((k, m))
-    return {"log": log, "pre": pre, "calls": state["calls"], "escapes": link.escapes(),
+    codec_notes = []
+    if case.get("codec"):
+        log = [(k_, list(m)) for k_, m in log]
+        _decode_replies(log, codec_notes)
+    return {"codec_notes": codec_notes, "log": log, "pre": pre, "calls": state["calls"], "escapes": link.escapes(),
             "closing": link.closing(), "protocol_errors": link.protocol_errors(),
             "wire_errors": link.wire_errors(), "user_errors": list(link.session.user_errors),
             "progress_raised": state.get("progress_raised", []),
@@ -696,6 +764,17 @@ def judge(acc, case, obs):
         if (rid in obs["invocations_left"]) != (exp is None):
             acc.bad("C10|invocation-table|%s|%s|%s" % (bsig, tname, fw),
                     d + "; _invocations=%s" % obs["invocations_left"], case)
+    # ---- replies to an encoded invocation are encoded as well (a value / error raised by the
+    # endpoint never travels in clear; errors the library itself raises about the codec may)
+    for note in obs.get("codec_notes") or []:
+        if note[0] == "clear-yield":
+            acc.bad("C10|encoded-invocation-answered-in-clear|%s|%s" % (tname, fw), d, case)
+        elif note[0] == "uri-mismatch":
+            acc.bad("C10|encoded-error-uri-mismatch|%s|%s" % (tname, fw), d, case)
+        elif note[0] == "clear-error" and note[2] in (APP_URI, MAPPED_URI):
+            acc.bad("C10|encoded-invocation-answered-in-clear|%s|%s" % (tname, fw), d, case)
+    if case.get("codec"):
+        acc.inc("payload_codec_cases|%s|%s" % (tk, fw))
     # ---- whole-execution obligations
     known = set(1001 + i for i in range(len(case["invs"])))
     for _, m in obs["log"]:
@@ -769,6 +848,11 @@ def job(a):
                             one_case(acc, dict(base, invs=[{"beh": beh, "rp": rp, "args": "full"}],
                                                det=det, script=script, coalesce=False, tb=True))
                             acc.inc("traceback_forwarding_on")
+                        if not coalesce and beh in CODEC_BEHS:
+                            # a payload codec is active and the INVOCATION arrives encoded: the same
+                            # obligations on the encoded-payload reply paths
+                            one_case(acc, dict(base, invs=[{"beh": beh, "rp": rp, "args": "full"}],
+                                               det=det, script=script, coalesce=False, codec=True))
                         if len(script) <= 2 and not coalesce:
                             # endpoint signature shapes x register(check_types=True)
                             for ep in ("named", "mixed", "var+ct", "named+ct", "mixed+ct"):
